@@ -44,6 +44,8 @@ MUTS = {
  'mem_slice_pops_from_parent': (IM, "            client_id: self._client_to_data_mapping[client_id]\n            for client_id in client_ids", "            client_id: self._client_to_data_mapping.pop(client_id)\n            for client_id in list(client_ids)"),
  'mem_feature_order_sensitive': (IM, "      if sorted(dataset.keys()) != sorted(self._features):", "      if list(dataset.keys()) != self._features:"),
  'sub_clients_hash_order': (FD, "    yield from self.get_clients(sorted(self._client_ids))", "    yield from self.get_clients(sorted(self._client_ids, key=hash))"),
+ 'client_pre_append_idempotent': (FD, "    return ClientPreprocessor(self._fns + (fn,))", "    if fn in self._fns:\n      return self\n    return ClientPreprocessor(self._fns + (fn,))"),
+ 'batch_pre_append_idempotent': (CD, "    return BatchPreprocessor(self._fns + (fn,))", "    if fn in self._fns:\n      return self\n    return BatchPreprocessor(self._fns + (fn,))"),
  'sub_clients_unsorted_set': (FD, "    yield from self.get_clients(sorted(self._client_ids))", "    yield from self.get_clients(sorted(self._client_ids)[1:])"),
  'sub_shuffled_skips_one': (FD, "      for client_id, dataset in client_datasets.buffered_shuffle(\n          self.clients(), buffer_size, rng):\n        yield client_id, dataset", "      for client_id, dataset in list(client_datasets.buffered_shuffle(\n          self.clients(), buffer_size, rng))[:-1] or list(self.clients()):\n        yield client_id, dataset"),
 }
